@@ -28,6 +28,8 @@ RULES_DOC["R7"] = "= C06.R1/R3/R4: every post-switch callback, including its can
 RULES_DOC["R8"] = "= C01.R5: a unit cancelled in a yield-family callback is not pushed back (TERMINATED is final)"
 RULES_DOC["R9"] = "= C02.R5: every switch primitive release-stores RUNNING into the unit it switches to before the switch (a unit never executes while its state says READY)"
 RULES_DOC["X4"] = common.X4_DOC
+RULES_DOC["R10"] = "request bits: ABTI_thread_set_request ORs the given bits in, ABTI_thread_unset_request ANDs with their complement (~req): clearing one request never clears another that is still pending (a migration that completes does not erase a cancellation)"
+RULES_DOC["R11"] = "= C03.R4: a joiner that is not a ULT (external thread, tasklet) is released through its futex; exit and resume_joiner agree on how such a joiner is recognised"
 RULES_DOC.update({
     "R1": "role-based census of every store to ABTI_thread::state",
     "R2": "callers of ABTI_thread_terminate are the five terminating roles",
@@ -330,6 +332,21 @@ def rule_R5(P, rep):
         rep.need(n >= 1, "%s never exits" % api)
 
 
+def rule_R10(P, rep):
+    H = "src/include/abti_thread.h"
+    for fn, wrapper, want in (("ABTI_thread_set_request", "fetch_or", "{p}"), ("ABTI_thread_unset_request", "fetch_and", "~{p}")):
+        F = P.fn(fn, H)
+        reqp = F.params[-1]["n"]
+        calls = [i for _b, i in F.calls() if wrapper in (F.nodes[i].get("fn") or "")]
+        rep.need(len(calls) == 1, "%s: %d %s calls" % (fn, len(calls), wrapper))
+        nd = F.nodes[calls[0]]
+        got = canon.expr(F, nd["a"][1])
+        fo = F.field_of(nd["a"][0])
+        rep.ob("R10", "%s applies %s to ABTI_thread::request with %s" % (fn, wrapper, want.format(p=reqp)),
+               fo == ("ABTI_thread", "request") and got == want.format(p=reqp),
+               "%s(%s, %s)" % (nd["fn"], F.render(nd["a"][0]), got), loc=F.loc(calls[0]), site="%s/mask" % fn)
+
+
 def run(P, rep, tier):
     common.rule_X4(P, rep)
     common.run_shared(P, rep, which=("X1",))
@@ -345,3 +362,5 @@ def run(P, rep, tier):
     from . import C01
     common.borrow(rep, P, C01.rule_R5, "R8")
     common.borrow(rep, P, C02.rule_R4_R5, "R9", only=("R5",))
+    rule_R10(P, rep)
+    common.borrow(rep, P, C03.rule_R3_R4, "R11", only=("R4",))
